@@ -418,6 +418,61 @@ pub fn run(ctx: &mut Ctx) {
     });
     // a Certificate body in the TLS 1.3 layout with a non-empty request context: read in the layout this crate
     // implements its chain length overruns the body ("certificate list longer than the body")
+    // Certificate messages whose certificate-list REGION (u24 length, certificate) is at the same time one
+    // well-formed DER TLV with well-formed nested TLVs (a SubjectPublicKeyInfo-like SEQUENCE { SEQUENCE, BIT STRING },
+    // and other shapes): possible exactly when the first certificate is 0x3083xx bytes long. The RFC 5246 reading is
+    // the only one the statement allows: the chain is [certificate], byte for byte
+    ctx.floor("der-region.cases", 12);
+    ctx.sweep("certificate-region-also-der", 12, |ctx, idx| {
+        let mut r = Rng::new(idx ^ 0xDE5);
+        // single certificate of L bytes: region = 30 83 XX | 83 YY ... ; DER content length = region - 5 must have top byte XX
+        let extra_certs = (idx / 4) as usize; // 0: the region is exactly one certificate; 1, 2: further certificates follow
+        let l: usize = 0x308330 + (idx as usize % 4) * 0x100;
+        let tail: Vec<Vec<u8>> = (0..extra_certs).map(|k| r.bytes(10 + 300 * k)).collect();
+        let tail_len: usize = tail.iter().map(|c| 3 + c.len()).sum();
+        let region_len = 3 + l + tail_len;
+        let der_len = region_len - 5;
+        // the u24 certificate length and the DER long-form header line up when XX is the top byte of the DER length
+        let xx = (der_len >> 16) as u8;
+        let l = (0x3083usize << 8) | xx as usize;
+        let region_len = 3 + l + tail_len;
+        let der_len = region_len - 5;
+        if (der_len >> 16) as u8 != xx || l + 3 + tail_len != region_len {
+            ctx.unjudged("der-region-size-not-self-consistent");
+            return;
+        }
+        // DER content (der_len bytes) = first (small) element + one big element with a 3-byte long-form length
+        let first_el: Vec<u8> = match idx % 4 {
+            0 => { let mut v = vec![0x30, 0x0d]; v.extend(r.bytes(13)); v }            // AlgorithmIdentifier-like SEQUENCE
+            1 => { let mut v = vec![0x02, 0x01]; v.push(r.u8() & 0x7f); v }             // INTEGER
+            2 => { let mut v = vec![0x30, 0x00]; v.extend([0x05, 0x00]); v }           // empty SEQUENCE, NULL
+            _ => vec![],
+        };
+        let big_tag = [0x03u8, 0x04, 0x30, 0x03][(idx % 4) as usize];
+        let big_len = der_len - first_el.len() - 5;
+        let mut content = first_el.clone();
+        content.push(big_tag);
+        content.push(0x83);
+        content.extend_from_slice(&[(big_len >> 16) as u8, (big_len >> 8) as u8, big_len as u8]);
+        // region bytes: 30 83 XX | [der_len as 3 bytes][content...] ; the certificate is region[3..3 + l]
+        let mut region = vec![0x30u8, 0x83, xx];
+        region.extend_from_slice(&[(der_len >> 8) as u8, der_len as u8]);
+        region.extend_from_slice(&content);
+        region.resize(3 + l, 0);
+        // (the tail certificates lie inside the big element's value when read as DER)
+        let cert = region[3..3 + l].to_vec();
+        let mut chain = vec![cert];
+        chain.extend(tail);
+        let v = AHs::Certificate(chain);
+        let x = v.to_bytes();
+        // the encoder's region must be the dual-valid one we built
+        if x[4 + 3..4 + 3 + 5] != [0x30, 0x83, xx, (der_len >> 8) as u8, der_len as u8] || x.len() != 4 + 3 + region_len {
+            ctx.unjudged("der-region-construction-mismatch");
+            return;
+        }
+        ctx.count("der-region.cases");
+        roundtrip(ctx, &v, &[0xEE, 0xEE, 0xEE], "certificate-region-also-der");
+    });
     ctx.sweep("R12-tls13-shaped-certificate", 512, |ctx, idx| {
         let mut r = Rng::new(idx ^ 0x1312);
         let body = gen::tls13_certificate_body(&mut r);
